@@ -55,6 +55,7 @@ func (sc *scenario) run() {
 	var pend []pendingReq
 	var kept [][2]string // request objects created and not yet connected: key, server
 	nextKey := 1
+	lateStalled := false // a backend scripted `late` may be waiting for its release
 	r := sc.rng
 	alive := true
 	loggedIn := false
@@ -107,6 +108,15 @@ func (sc *scenario) run() {
 				nextKey++
 			case !loggedIn:
 				op = "login"
+			case len(pend) == 0 && lateStalled:
+				op = "release"
+				if r.Chance(1, 3) {
+					op = "req " + hx.Pick(r, names) + "|release"
+				}
+			case len(pend) == 0 && len(kept) == 0 && cur != "-" && r.Chance(1, 14):
+				// a request with a short deadline to a backend that logs in promptly and answers JoinGame too late
+				d := hx.Pick(r, others(cur))
+				op = "script " + d + " late|tconn " + d
 			case len(pend) == 0 && len(kept) > 0 && r.Chance(1, 3):
 				k := kept[0]
 				kept = kept[1:]
@@ -251,6 +261,11 @@ func (sc *scenario) run() {
 				kept = append(kept, [2]string{f[1], f[2]})
 			case "conn":
 				impl = hx.Guard(30*time.Second, func() string { return w.connectKept(f[1]) + " " + w.observe(false) })
+			case "tconn":
+				lateStalled = true
+				impl = hx.Guard(30*time.Second, func() string {
+					return w.connectDeadline(f[1], 1500*time.Millisecond) + " " + w.observe(false)
+				})
 			case "req":
 				impl = hx.Guard(30*time.Second, func() string { return w.connect(f[1]) + " " + w.observe(false) })
 			case "start":
@@ -283,6 +298,8 @@ func (sc *scenario) run() {
 						rs = append(rs, <-p.ch)
 					}
 					pend = nil
+					lateStalled = false
+					w.waitReleased()
 					if len(rs) == 0 {
 						rs = []string{""}
 					}
@@ -375,12 +392,18 @@ func main() {
 			fixed: []string{"script s1 s:a", "loginstall", "create 1 s2", "create 2 s3", "release", "conn 1 s2", "req s1",
 				"create 3 s1", "conn 2 s3", "conn 3 s1", "req s2"}})
 	}
+	// a request that TIMES OUT between the backend's login success and its JoinGame: the connection must be closed with
+	// the failure report and the late JoinGame must not move the player
+	for _, p := range []proto.Protocol{47, 340, 765, 767} {
+		scs = append(scs, &scenario{proto: p, try: all, rng: hx.NewRng(1),
+			fixed: []string{"login", "script s2 late", "tconn s2", "req s3", "release", "req s2", "req s1"}})
+	}
 	// modern-only faults in the configuration phase
 	for _, p := range modern {
 		scs = append(scs, &scenario{proto: p, try: all, rng: hx.NewRng(1),
 			fixed: []string{"login", "script s2 kc.a", "req s2", "req s2", "script s3 s:kc|start s3", "req s1", "release", "req s1"}})
 	}
-	n := run.Scale(220, 900)
+	n := run.Scale(180, 800)
 	for i := 0; i < n; i++ {
 		var p proto.Protocol
 		if i%2 == 0 {
